@@ -629,6 +629,7 @@ static void growth_exec(FILE* out, vj::Rng& r, unsigned variant) {
   ex.bind(1);
   ex.embed(rand_bytes(r, 5));
   if (variant % 4 == 0) { ex.set_offset(3 + r.below(10)); ex.embed(rand_bytes(r, 4)); ex.align(2, 32); }
+  if (variant % 2 == 0) ex.set_offset(r.below(200));            // the reallocation below must keep a rewound cursor
   ex.reserve(1, 40000 + r.below(100));
   ex.embed_array("uint16", 37, std::vector<uint8_t>{uint8_t(r.below(256)), uint8_t(r.below(256))}, 1, 9000);
   ex.align(0, 16);
